@@ -178,6 +178,8 @@ const CONTEXTS: &[Ctxt] = &[
     Ctxt { name: "range assignment rhs", tmpl: "xs := [7, 8, 9]; xs[0:1] = v; print(xs)\n", accept: &[K::List, K::Str] },
     Ctxt { name: "type function subject", tmpl: "print(v->type())\n", accept: &[K::Bool, K::Int, K::Str, K::List, K::Obj, K::UFn, K::BFn] },
     Ctxt { name: "len subject", tmpl: "print(v->len())\n", accept: &[K::Str] },
+    Ctxt { name: "slot of a literal nested in a slot, after a sibling nested literal", tmpl: "print($\"${$\"${\"a\"}\"}|${$\"${v}\"}\")\n", accept: &[K::Str] },
+    Ctxt { name: "slot of a literal nested in a slot, evaluated twice", tmpl: "fn w(p) { return p; }\nq := $\"${w($\"${\"a\"}\")}\"\nprint($\"${w($\"${v}\")}\")\n", accept: &[K::Str] },
     Ctxt { name: "slot of an interpolated property name", tmpl: "print({$\"k${v}\": 1})\n", accept: &[K::Str] },
     Ctxt { name: "slot of an interpolated key read", tmpl: "w := {\"ks\": 1, \"k\": 2}\nprint(w[$\"k${v}\"])\n", accept: &[K::Str] },
     Ctxt { name: "slot of an interpolated key written", tmpl: "w := {}\nw[$\"k${v}\"] = 1\nprint(w)\n", accept: &[K::Str] },
@@ -227,6 +229,9 @@ impl Check for C16 {
                         PRELUDE, vx(l), vx(r), op
                     );
                     cases.push(Case::new(src, T_BIN, format!("binop {} {} {}", oi, l, r)));
+                    // one literal operand and one variable, both ways round
+                    cases.push(Case::new(format!("{}b := {}\nprint(\"pre\")\nprint({} {} b)\n", PRELUDE, vx(r), vx(l), op), T_BIN, format!("binop {} {} {}", oi, l, r)));
+                    cases.push(Case::new(format!("{}a := {}\nprint(\"pre\")\nprint(a {} {})\n", PRELUDE, vx(l), op, vx(r)), T_BIN, format!("binop {} {} {}", oi, l, r)));
                     // literal operands (no variables in between)
                     let src2 = format!("{}print(\"pre\")\nprint({} {} {})\n", PRELUDE, vx(l), op, vx(r));
                     cases.push(Case::new(src2, T_BIN, format!("binop {} {} {}", oi, l, r)));
